@@ -12,7 +12,7 @@
       live s = slots [Beff, Teff)       inflight s = slots already claimed, not yet read *)
 From Coq Require Import ZArith List Permutation.
 From MT Require Import Lib.Interleave Wsq.WsqModel Wsq.WsqLists Wsq.WsqInv Wsq.WsqProofs
-                       Wsq.WsqRefine Wsq.TsoModel Wsq.TsoProofs Wsq.TsoLock.
+                       Wsq.WsqRefine Wsq.TsoModel Wsq.TsoProofs Wsq.TsoLock Wsq.TsoInv Wsq.TsoSound.
 Import ListNotations.
 Local Open Scope Z_scope.
 
@@ -71,10 +71,10 @@ Print Assumptions C02_declined_steal.
 
 Example C02_declined_example :
   let s := run step (do_push 1 ++ do_push 2) (init_state 4 2) in
-  let s' := run step (solo 0 (WTake false) 7) s in
+  let s' := run step (solo 0 (WTake false) 8) s in
   nth_error (thv s') 0 = Some (TDone 0) /\ mm s' = mm s /\
   (* ... and the same candidate is handed out when the callback accepts *)
-  nth_error (thv (run step (solo 0 (WTake true) 7) s)) 0 = Some (TDone 1).
+  nth_error (thv (run step (solo 0 (WTake true) 8) s)) 0 = Some (TDone 1).
 Proof. vm_compute. repeat split; reflexivity. Qed.
 
 (** ** The wsapi peek (refill of the steal-hint cache with the take-and-roll-back idiom, then the
@@ -213,12 +213,50 @@ Theorem C02_tso_contains_sc_thief : forall t s s1 i,
 Proof. exact tso_thief_tick_sc. Qed.
 Print Assumptions C02_tso_contains_sc_thief.
 
-(** PARTIAL TSO invariant.  Full statement (not proved): for every table accepted by
-    [fence_table_ok], every TSO-reachable state satisfies the conservation clauses of
-    [C02_inv_reachable] (with top / base read through the owner's / thief's youngest buffered
-    store).  Proved: its lock-discipline clause, for EVERY fence table - the regions under
-    q->lock exclude each other although the unlock is a plain, bufferable store. *)
-Theorem C02_tso_lock_partial : forall t s, reachable tso_initial (tso_step t) s ->
+(** ** Soundness of the accepted fence placements under x86-TSO.
+
+    [fence_table_ok tbl]: a Full fence between pop's store to top and its load of base, between
+    take's store to base and its load of top, and before the unlocking store (the other positions
+    are arbitrary).  Then EVERY state reachable by the store-buffer machine - any capacity, any
+    number of thieves, any schedule of program steps and flushes - satisfies the deque invariant
+    on its logical memory [lmem] (memory overridden by the buffered stores): conservation
+    [pushed = returned + live + in flight], no duplicates, bounds, single lock holder.
+    The check evaluates [fence_table_ok] on the table regenerated from the current tree
+    (build/C02/gen/Fences.v: C02_tso_current, C02_tso_sound_current). *)
+Theorem C02_tso_sound : forall t s, fence_table_ok t = true ->
+  reachable tso_initial (tso_step t) s ->
+  let l := logical s in
+  qsize l = Z.of_nat (length (ptr (mm l))) /\
+  0 <= Beff l /\ Beff l <= Teff l /\ Teff l <= qsize l /\
+  Permutation (pushed l) (returned l ++ live l ++ inflight l) /\
+  (NoDup (pushed l) -> NoDup (returned l ++ live l ++ inflight l)) /\
+  lck (mm l) = holders l /\ 0 <= holders l <= 1 /\
+  (forall x i m b, own l = OPopFast x -> nth_error (thv l) i = Some (TSlot m b) -> 0 <= b < x).
+Proof. exact tso_sound_expanded. Qed.
+Print Assumptions C02_tso_sound.
+
+(** with no operation in flight and all store buffers drained: nothing lost, nothing duplicated,
+    on the real memory *)
+Theorem C02_tso_no_loss_no_dup : forall t s, fence_table_ok t = true ->
+  reachable tso_initial (tso_step t) s -> all_drained s -> quiescent (sc s) ->
+  let c := sc s in
+  0 <= base (mm c) /\ base (mm c) <= top (mm c) /\ top (mm c) <= qsize c /\ lck (mm c) = 0 /\
+  Permutation (pushed c) (returned c ++ zseg (ptr (mm c)) (base (mm c)) (top (mm c))) /\
+  (NoDup (pushed c) -> NoDup (returned c ++ zseg (ptr (mm c)) (base (mm c)) (top (mm c)))).
+Proof. exact tso_no_loss_no_dup. Qed.
+Print Assumptions C02_tso_no_loss_no_dup.
+
+(** the pinned placement is accepted; the witness of [C02_tso_fence_needed] is a reachable TSO
+    state (so the hypothesis of [C02_tso_sound] cannot be dropped) *)
+Example C02_tso_sound_example :
+  fence_table_ok pinned_table = true /\
+  fence_table_ok (mkFT CompilerOnly CompilerOnly Full Full CompilerOnly CompilerOnly Full) = true /\
+  fence_table_ok weak_table = false.
+Proof. vm_compute. repeat split; reflexivity. Qed.
+
+(** mutual exclusion of the regions under q->lock holds for EVERY fence table (also those not
+    accepted by [fence_table_ok]) *)
+Theorem C02_tso_lock_any_table : forall t s, reachable tso_initial (tso_step t) s ->
   0 <= holders (sc s) <= 1 /\
   (lck (mm (sc s)) = 0 \/ lck (mm (sc s)) = 1) /\
   (holders (sc s) = 1 -> lck (mm (sc s)) = 1) /\
@@ -226,7 +264,7 @@ Theorem C02_tso_lock_partial : forall t s, reachable tso_initial (tso_step t) s 
      holds_t pi = true -> holds_t pj = true -> i = j) /\
   (forall i pi, holds_o (own (sc s)) = true -> nth_error (thv (sc s)) i = Some pi -> holds_t pi = false).
 Proof. exact tso_lock_excl. Qed.
-Print Assumptions C02_tso_lock_partial.
+Print Assumptions C02_tso_lock_any_table.
 
 (** litmus: store -> full fence -> load on two words: never both loads stale (all executions) *)
 Theorem C02_tso_sb_fenced : forall s, lreach (linit (sb_prog Full)) s -> lfinal s = true ->
